@@ -247,9 +247,12 @@ def audit(ctx: Ctx):
     adir = LEAN / ".audit"
     adir.mkdir(exist_ok=True)
     modname = ctx.mod.LEAN_PROPS[:-5].replace("/", ".")
-    f = adir / f"{ctx.prop}.lean"
+    f = adir / f"{ctx.prop}_{os.getpid()}.lean"     # per process: concurrent runs of one property must not race
     f.write_text(f"import {modname}\n" + "".join(f"#print axioms {t}\n" for t in ctx.theorems))
-    rc, out = ctx.lean_run(f".audit/{ctx.prop}.lean")
+    try:
+        rc, out = ctx.lean_run(f".audit/{f.name}")
+    finally:
+        f.unlink(missing_ok=True)
     if rc != 0:
         hits.append("axiom audit failed to run: " + out[-500:])
     flat = re.sub(r"\s+", " ", out)
